@@ -719,22 +719,24 @@ fn framing_run(frag: usize, lens: &[usize], raw_mode: Option<u8>) -> (usize, boo
 	(got.len(), got == sent, closed)
 }
 
-/// spv_probe <a> <b> <lie_kind> <lie_at> <fail_at> <header_only>
+/// spv_probe <a> <b> <lie_kind> <lie_at> <fail_at> <header_only> [<flip>]
 /// The real SpvClient (lightning-block-sync, public API: SpvClient::new / poll_best_tip over a ChainPoller) against a
 /// synthetic regtest-difficulty block tree: a trunk of 4 blocks (heights 0..3), an old branch of <a> blocks on top of
 /// it that the listener is on, and a new branch of <b> blocks on top of the trunk that the block source reports as best.
 /// The source can misbehave: <lie_kind> 1 serves the header of block <lie_at> of the new branch (0 = its tip) with its
 /// height raised by one, 2 with its chain work raised, 3 with height u32::MAX, 4 serves another block's header in its
-/// place; <fail_at> n makes the n-th request to the source fail (0: none). <header_only> 1: blocks are served as headers.
-/// Two polls are made. The listener's notifications are replayed on the chain it started from. Output:
+/// place, 5 serves its parent's block data when the block itself is requested; <fail_at> n makes the n-th request to the
+/// source fail (0: none). <header_only> 1: blocks are served as headers. <flip> 1: after the first poll the source reports
+/// the OLD branch, grown by <b>+1 blocks, as best. Three polls are made. The listener's notifications are replayed on the chain it started from. Output:
 /// `<first poll ok> <listener's final height> <mask>`; mask bits: 1 the notifications do not describe one valid chain
 /// (a disconnection to a block the listener is not on, a connected block that does not extend the listener's tip, a wrong
-/// height), 2 the listener ended on a tip with less accumulated work than it started from, 4 a block of the new branch
+/// height), 2 with a source that does not misreport anything the listener ended on a tip with less accumulated work than it started from, 4 a block of the new branch
 /// at or above a misreported header was connected, 8 with an honest, reliable source and a heavier new branch the
 /// listener did not end at the new tip, 16 with a lighter or equal new branch the listener was moved.
 fn spv_probe(a: &mut Args) -> String {
 	let (na, nb, lie_kind, lie_at, fail_at, header_only) = (a.usize(), a.usize(), a.u8(), a.usize(), a.usize(), a.bool());
-	let (ok, height, mask) = spv_run(na, nb, lie_kind, lie_at, fail_at, header_only);
+	let flip = a.it.next().map(|x| x != "0").unwrap_or(false);
+	let (ok, height, mask) = spv_run(na, nb, lie_kind, lie_at, fail_at, header_only, flip);
 	format!("{} {} {}", ok as u8, height, mask)
 }
 
@@ -750,7 +752,7 @@ fn spv_battery(a: &mut Args) -> String {
 		for nb in 0..=max_b {
 			for header_only in [false, true] {
 				let mut behaviours = vec![(0u8, 0usize, 0usize)];
-				for k in 1..=4u8 {
+				for k in 1..=5u8 {
 					for at in 0..nb {
 						behaviours.push((k, at, 0));
 					}
@@ -759,17 +761,19 @@ fn spv_battery(a: &mut Args) -> String {
 					behaviours.push((0, 0, f));
 				}
 				for (k, at, f) in behaviours {
-					total += 1;
-					let r = catch_unwind(AssertUnwindSafe(|| spv_run(na, nb, k, at, f, header_only)));
-					let is_bad = match r {
-						Ok((_, _, mask)) => mask != 0,
-						Err(_) => true,
-					};
-					if is_bad {
-						if bad == 0 {
-							first = format!("{} {} {} {} {} {}", na, nb, k, at, f, header_only as u8);
+					for flip in [false, true] {
+						total += 1;
+						let r = catch_unwind(AssertUnwindSafe(|| spv_run(na, nb, k, at, f, header_only, flip)));
+						let is_bad = match r {
+							Ok((_, _, mask)) => mask != 0,
+							Err(_) => true,
+						};
+						if is_bad {
+							if bad == 0 {
+								first = format!("{} {} {} {} {} {} {}", na, nb, k, at, f, header_only as u8, flip as u8);
+							}
+							bad += 1;
 						}
-						bad += 1;
 					}
 				}
 			}
@@ -778,7 +782,7 @@ fn spv_battery(a: &mut Args) -> String {
 	format!("{} {} {}", bad, total, first)
 }
 
-fn spv_run(na: usize, nb: usize, lie_kind: u8, lie_at: usize, fail_at: usize, header_only: bool) -> (bool, u32, u32) {
+fn spv_run(na: usize, nb: usize, lie_kind: u8, lie_at: usize, fail_at: usize, header_only: bool, flip: bool) -> (bool, u32, u32) {
 	use bitcoin::block::{Block, Header, Version};
 	use bitcoin::hash_types::{BlockHash, TxMerkleNode};
 	use bitcoin::{Network, Transaction};
@@ -822,6 +826,15 @@ fn spv_run(na: usize, nb: usize, lie_kind: u8, lie_at: usize, fail_at: usize, he
 		tip_b = tree.len() - 1;
 		branch_b.push(tip_b);
 	}
+	// the old branch grown past the new one: what the source reports as best from the second poll on when <flip> is set
+	let mut tip_ext = tip_a;
+	for i in 0..(nb + 1) {
+		let b = mine(&tree[tip_ext].0, 3);
+		let h = tree[tip_ext].1 + 1;
+		tree.push((b, h, tip_ext));
+		tip_ext = tree.len() - 1;
+		let _ = i;
+	}
 	let work_of = |idx: usize| {
 		let mut path = vec![idx];
 		while *path.last().unwrap() != 0 {
@@ -838,7 +851,7 @@ fn spv_run(na: usize, nb: usize, lie_kind: u8, lie_at: usize, fail_at: usize, he
 	struct Source<'t> {
 		tree: &'t Vec<(Block, u32, usize)>,
 		works: Vec<bitcoin::Work>,
-		best: usize,
+		best: Mutex<usize>,
 		lying: Option<usize>,
 		lie_kind: u8,
 		fail_at: usize,
@@ -870,7 +883,8 @@ fn spv_run(na: usize, nb: usize, lie_kind: u8, lie_at: usize, fail_at: usize, he
 						1 => d.height += 1,
 						2 => d.chainwork = d.chainwork + self.tree[0].0.header.work(),
 						3 => d.height = u32::MAX,
-						_ => d.header = self.tree[(i + 1) % self.tree.len()].0.header,
+						4 => d.header = self.tree[(i + 1) % self.tree.len()].0.header,
+						_ => {},
 					}
 				}
 				Ok(d)
@@ -880,13 +894,16 @@ fn spv_run(na: usize, nb: usize, lie_kind: u8, lie_at: usize, fail_at: usize, he
 			async move {
 				self.tick()?;
 				let i = self.find(hash).ok_or_else(|| BlockSourceError::persistent("unknown block"))?;
+				// kind 5: the data of another block is served in place of the misreported one
+				let i = if self.lying == Some(i) && self.lie_kind == 5 { self.tree[i].2 } else { i };
 				Ok(if self.header_only { BlockData::HeaderOnly(self.tree[i].0.header) } else { BlockData::FullBlock(self.tree[i].0.clone()) })
 			}
 		}
 		fn get_best_block<'a>(&'a self) -> impl Future<Output = BlockSourceResult<(BlockHash, Option<u32>)>> + Send + 'a {
 			async move {
 				self.tick()?;
-				Ok((self.tree[self.best].0.block_hash(), Some(self.tree[self.best].1)))
+				let best = *self.best.lock().unwrap();
+				Ok((self.tree[best].0.block_hash(), Some(self.tree[best].1)))
 			}
 		}
 	}
@@ -920,13 +937,17 @@ fn spv_run(na: usize, nb: usize, lie_kind: u8, lie_at: usize, fail_at: usize, he
 		}
 	}
 	let works: Vec<bitcoin::Work> = (0..tree.len()).map(|i| work_of(i)).collect();
-	let source = Source { tree: &tree, works: works.clone(), best: tip_b, lying, lie_kind, fail_at, header_only, requests: Mutex::new(0) };
+	let source = Source { tree: &tree, works: works.clone(), best: Mutex::new(tip_b), lying, lie_kind, fail_at, header_only, requests: Mutex::new(0) };
 	let start = BlockHeaderData { header: tree[tip_a].0.header, height: tree[tip_a].1, chainwork: works[tip_a] }.validate(tree[tip_a].0.block_hash()).expect("valid start");
 	let recorder = Recorder(Mutex::new(Vec::new()));
 	let poller = ChainPoller::new(&source, Network::Regtest);
 	let mut client = SpvClient::new(start, poller, HeaderCache::new(), &recorder);
 	let first = block_on(client.poll_best_tip());
+	if flip {
+		*source.best.lock().unwrap() = tip_ext;
+	}
 	let _second = block_on(client.poll_best_tip());
+	let _third = block_on(client.poll_best_tip());
 	// replay the notifications on the chain the listener started from
 	let mut chain: Vec<usize> = Vec::new();
 	let mut i = tip_a;
@@ -966,11 +987,14 @@ fn spv_run(na: usize, nb: usize, lie_kind: u8, lie_at: usize, fail_at: usize, he
 		}
 	}
 	let end = *chain.last().unwrap();
-	if works[end] < works[tip_a] {
+	// (a source that keeps misreporting a block of the new branch can leave the listeners at the fork point: the old
+	//  branch is disconnected before the new one is fetched; with an honest source the later polls must make up for it)
+	if works[end] < works[tip_a] && lie_kind == 0 {
 		mask |= 2;
 	}
-	let heavier = works[tip_b] > works[tip_a];
-	if heavier && lie_kind == 0 && fail_at == 0 && end != tip_b {
+	let last_best = if flip { tip_ext } else { tip_b };
+	let heavier = works[last_best] > works[tip_a];
+	if heavier && (lie_kind == 0 || flip) && fail_at == 0 && end != last_best {
 		mask |= 8;
 	}
 	if !heavier && end != tip_a {
